@@ -158,7 +158,9 @@ def harness_cflags(build=PBUILD):
             "-I" + os.path.join(build, "parsec/include"), "-I" + build,
             "-I" + os.path.join(REPO, "parsec/include"), "-I" + REPO,
             "-I" + os.path.join(build, "parsec/data_dist/matrix"),
-            "-I" + os.path.join(VERIF, "harness")] + MPI_INC
+            "-I" + os.path.join(VERIF, "harness"),
+            # fallback for the generated configuration headers when a scratch copy has no build of its own
+            "-I" + os.path.join(WORK, "pbuild/parsec/include"), "-I" + os.path.join(WORK, "pbuild")] + MPI_INC
 
 
 def build_harness(src, out, link_parsec=False, extra=(), build=PBUILD, extra_src=(), cflags=()):
